@@ -9,7 +9,9 @@ fn ptr_from_bytes_method(_ctx: &Context, input: &DeriveInput) -> TokenStream {
             assert!(!struct_data.fields.is_empty());
             let last_ty = &struct_data.fields.iter().last().unwrap().ty;
             quote! {
-                use ::flatty::utils::mem::{offset_slice_ptr_start, cast_wide_ptr_with_offset};
+                use ::flatty::utils::{floor_mul, mem::{offset_slice_ptr_start, cast_wide_ptr_with_offset, set_slice_ptr_len, slice_ptr_len}};
+                // Size of the value is a multiple of its alignment, so it can cover only that many bytes.
+                let __flatty_bytes = set_slice_ptr_len(__flatty_bytes, floor_mul(slice_ptr_len(__flatty_bytes), Self::ALIGN));
                 cast_wide_ptr_with_offset!(
                     Self,
                     <#last_ty as FlatUnsized>::ptr_from_bytes(offset_slice_ptr_start(__flatty_bytes, Self::LAST_FIELD_OFFSET as isize)),
